@@ -187,21 +187,21 @@ impl<T: Value, N: Unsigned, U: UpdateMap<T>> List<T, N, U> {
                 return Err(Error::InvalidListUpdate);
             }
             // Updates at or beyond the current length must extend the list contiguously,
-            // otherwise it would be left with holes.
+            // otherwise it would be left with holes. All keys are visited rather than only those
+            // up to `max_index`: a `MaxMap` filled through `get_mut_with`/`get_cow_with` instead
+            // of `insert` under-reports its largest key, and such keys must be rejected too.
             let mut next_index = self.len();
-            if max_index >= next_index {
-                updates.for_each_range(next_index, max_index + 1, |index, _| {
-                    if index == next_index {
-                        next_index += 1;
-                        ControlFlow::Continue(Ok(()))
-                    } else {
-                        ControlFlow::Continue(Err(Error::OutOfBoundsUpdate {
-                            index,
-                            len: next_index,
-                        }))
-                    }
-                })?;
-            }
+            updates.for_each_range(next_index, usize::MAX, |index, _| {
+                if index == next_index && index <= max_index {
+                    next_index += 1;
+                    ControlFlow::Continue(Ok(()))
+                } else {
+                    ControlFlow::Continue(Err(Error::OutOfBoundsUpdate {
+                        index,
+                        len: next_index,
+                    }))
+                }
+            })?;
         }
         self.interface.bulk_update(updates)
     }
